@@ -113,11 +113,13 @@ struct Sim {
     replies: Vec<Reply>,
     set_points: Vec<(u64, Option<u32>)>,
     schedule: Vec<(usize, Mutation)>,
+    /// the node's chain at the time of the last reply of the current import
+    seen: Option<Vec<Blk>>,
 }
 
 impl Sim {
     fn new(chain: Vec<Blk>, await_sem: bool) -> Sim {
-        Sim { chain, conn: None, await_sem, replies: vec![], set_points: vec![], schedule: vec![] }
+        Sim { chain, conn: None, await_sem, replies: vec![], set_points: vec![], schedule: vec![], seen: None }
     }
     fn apply(&mut self, m: &Mutation) {
         match m {
@@ -193,6 +195,7 @@ impl Sim {
             Reply::Nothing
         };
         self.replies.push(r.clone());
+        self.seen = Some(self.chain.clone());
         r
     }
 }
@@ -488,7 +491,7 @@ struct History {
 ///   2  a roll-back to a point that is not in the chain known to the node (below / outside the store)
 ///   3  the target exceeds the highest block delivered: the last complete range below it is not covered
 ///   g  good: the refinement theorem applies
-fn classify(s0: &[(u32, u64, u64)], from_slot: u64, target: u64, replies: &[Reply], after: &[(u32, u64, u64)]) -> char {
+fn classify(s0: &[(u32, u64, u64)], from_slot: u64, target: u64, replies: &[Reply], after: Option<&[(u32, u64, u64)]>) -> char {
     if let Some(hi) = s0.iter().map(|b| b.1).max() {
         if hi >= target {
             return 'e';
@@ -533,8 +536,10 @@ fn classify(s0: &[(u32, u64, u64)], from_slot: u64, target: u64, replies: &[Repl
         }
     }
     let k = (target + 1) / 15;
-    if k > 0 && !after.iter().any(|b| k * 15 <= b.1 + 1) {
-        return '3';
+    if let Some(after) = after {
+        if k > 0 && !after.iter().any(|b| k * 15 <= b.1 + 1) {
+            return '3';
+        }
     }
     'g'
 }
@@ -593,6 +598,7 @@ fn run_history(env: &Env, h: &History, rng: &mut Rng, plan: SPlan) -> Outcome {
     let mut blocks_seen: BTreeMap<u32, Blk> = BTreeMap::new();
     let mut dump = Dump::default();
     let mut pruned_below: u64 = 0;
+    let mut tainted_letters = false;
     let n_imports = h.events.iter().filter(|e| matches!(e, Event::Import { .. })).count();
     let mut import_idx = 0;
     let sample: BTreeSet<usize> = if plan.every { (0..n_imports).collect() } else { (0..2).map(|_| rng.below(n_imports.max(1) as u64) as usize).chain([n_imports.saturating_sub(1)]).collect() };
@@ -631,20 +637,25 @@ fn run_history(env: &Env, h: &History, rng: &mut Rng, plan: SPlan) -> Outcome {
                     s.replies.clear();
                     s.set_points.clear();
                     s.schedule = mid.clone();
+                    s.seen = None;
                 }
                 node.store.ops.lock().unwrap().clear();
                 node.store.rollbacks.lock().unwrap().clear();
                 let before = dump.clone();
                 let res = node.import(*target);
-                let (replies, set_points) = {
+                let (replies, set_points, canon) = {
                     let mut s = sim.lock().unwrap();
+                    // the canonical chain of this import: the node's chain when the importer last looked
+                    let canon: Vec<Blk> = s.seen.clone().unwrap_or_else(|| s.chain.clone());
                     // the chain moved on whether or not the importer looked
                     let rest: Vec<Mutation> = s.schedule.drain(..).map(|x| x.1).collect();
                     for m in rest {
                         s.apply(&m);
                     }
-                    (s.replies.clone(), s.set_points.clone())
+                    (s.replies.clone(), s.set_points.clone(), canon)
                 };
+                let ops = node.store.ops.lock().unwrap().join(",");
+                let rbs = node.store.rollbacks.lock().unwrap().clone();
                 if res == "panic" {
                     // the worker thread died: reopen the database as a restarted process would
                     node.restart();
@@ -658,13 +669,12 @@ fn run_history(env: &Env, h: &History, rng: &mut Rng, plan: SPlan) -> Outcome {
                 let from = match set_points.first() {
                     None => "skip".to_string(),
                     Some((_, None)) => "origin".to_string(),
-                    Some((s, Some(id))) => format!("{}.{}", s, id),
+                    Some((s, Some(_))) => format!("{}", s),
                 };
                 let from_slot = set_points.first().map(|p| p.0).unwrap_or(0);
-                let letter = classify(&before.blocks, from_slot, *target, &replies, &dump.blocks);
+                let letter = classify(&before.blocks, from_slot, *target, &replies, if res == "ok" { Some(&dump.blocks) } else { None });
                 out.letters.push(letter);
                 // class predicates on the real store's roll-backs
-                let rbs = node.store.rollbacks.lock().unwrap().clone();
                 let mut cls: Option<&str> = match letter {
                     '1' => Some("skip-rollback-to-start"),
                     '2' => Some("rollback-below-store"),
@@ -685,8 +695,11 @@ fn run_history(env: &Env, h: &History, rng: &mut Rng, plan: SPlan) -> Outcome {
                     }
                 }
                 steps.push(format!("(i,{},[{}])", target, replies.iter().map(show_reply).collect::<Vec<_>>().join(",")));
-                let ops = node.store.ops.lock().unwrap().join(",");
-                trace.push(format!("i{}:{};from={};ops=[{}];c={};{}", target, res, from, ops, letter, dump.summary()));
+                let shown = if tainted_letters { 't' } else { letter };
+                if matches!(letter, '1' | '2' | 'x' | 'p') {
+                    tainted_letters = true;
+                }
+                trace.push(format!("i{}:{};from={};ops=[{}];c={};{}", target, res, from, ops, shown, dump.summary()));
                 if res != "ok" {
                     stopped = true;
                     if out.taint.is_none() {
@@ -700,7 +713,6 @@ fn run_history(env: &Env, h: &History, rng: &mut Rng, plan: SPlan) -> Outcome {
                 if !check_here {
                     continue;
                 }
-                let canon: Vec<Blk> = sim.lock().unwrap().chain.clone();
                 let (fd, fnode) = env.fresh(&canon, *target);
                 fnode.close();
                 out.s_checks += 1;
@@ -736,7 +748,7 @@ fn run_history(env: &Env, h: &History, rng: &mut Rng, plan: SPlan) -> Outcome {
                 }
                 if !diffs.is_empty() {
                     let canon_ids: BTreeSet<u32> = canon.iter().map(|b| b.id).collect();
-                    let stale = early && dump.blocks.iter().any(|b| b.1 <= *target && !canon_ids.contains(&b.0));
+                    let stale = early && dump.blocks.last().map(|b| !canon_ids.contains(&b.0)).unwrap_or(false);
                     let class = out.taint.clone().unwrap_or_else(|| if stale { "stale-noop-import".into() } else { "diverged".into() });
                     out.sfails.push((class, format!("after import({}) [{}]: {}", target, letter, diffs.join("; "))));
                 }
@@ -759,7 +771,7 @@ fn run_history(env: &Env, h: &History, rng: &mut Rng, plan: SPlan) -> Outcome {
                         let partial = (b + 1) % 15 != 0;
                         let inside = partial && dump.roots.iter().any(|r| r.0 <= b && b < r.1);
                         let canon_ids: BTreeSet<u32> = canon.iter().map(|x| x.id).collect();
-                        let stale = dump.blocks.iter().any(|x| x.1 <= b && !canon_ids.contains(&x.0));
+                        let stale = dump.blocks.last().map(|x| !canon_ids.contains(&x.0)).unwrap_or(false);
                         let class = out.taint.clone().unwrap_or_else(|| {
                             if stale && early {
                                 "stale-noop-import".into()
@@ -889,35 +901,22 @@ fn gen_history(rng: &mut Rng, thorough: bool) -> History {
             };
             let mut mid = vec![];
             if rng.chance(2, 5) {
-                let mut gm = Gen { chain: g.chain.clone(), next_id: g.next_id, sparse: g.sparse, tx_rate: g.tx_rate };
-                for _ in 0..rng.range(1, 2) {
-                    let at = rng.below(2 * max_per_poll as u64 + 8) as usize;
-                    let room = max_chain.saturating_sub(gm.chain.len());
+                // reply indices first, then the mutations in the order the simulator applies them
+                let mut ats: Vec<usize> = (0..rng.range(1, 2)).map(|_| rng.below(2 * max_per_poll as u64 + 8) as usize).collect();
+                ats.sort();
+                for at in ats {
+                    let room = max_chain.saturating_sub(g.chain.len());
                     let m = if rng.bool() && room > 0 {
                         let n = rng.range(1, room.min(12) as u64) as usize;
-                        gm.grow(rng, n)
+                        g.grow(rng, n)
                     } else {
-                        let keep = gm.pick_keep(rng, imported_hi);
+                        let keep = g.pick_keep(rng, imported_hi);
                         let room = max_chain.saturating_sub(keep);
                         let n = rng.below(room.min(10) as u64 + 1) as usize;
-                        gm.switch(rng, keep, n)
+                        g.switch(rng, keep, n)
                     };
                     mid.push((at, m));
                 }
-                mid.sort_by_key(|x| x.0);
-                // the generator's chain follows the order in which the simulator applies them (by reply index)
-                let mut g2 = Gen { chain: g.chain.clone(), next_id: gm.next_id, sparse: g.sparse, tx_rate: g.tx_rate };
-                for (_, m) in &mid {
-                    match m {
-                        Mutation::Grow(bs) => g2.chain.extend(bs.iter().cloned()),
-                        Mutation::Switch { keep, blocks } => {
-                            g2.chain.truncate(*keep);
-                            g2.chain.extend(blocks.iter().cloned());
-                        }
-                    }
-                }
-                g.chain = g2.chain;
-                g.next_id = g2.next_id;
             }
             events.push(Event::Import { target, mid });
             imported_hi = imported_hi.max(target.min(g.tip()));
